@@ -369,12 +369,31 @@ pub fn explore(cfg: &Config, sym: &dyn Fn(), native: Option<&dyn Fn()>) -> Repor
                     solver.send(&defs);
                     solver.push();
                     solver.send(&format!("(assert (not (and {} true)))\n", names.join(" ")));
-                    match solver.check(nvars) {
+                    let first = solver.check(nvars);
+                    solver.pop();
+                    match first {
                         Answer::Unsat => rep.obligations_by_solver += names.len() as u64,
                         Answer::Sat(m) => candidate = Some((m, "?".into(), "solver model".into())),
+                        Answer::Unknown(_) if names.len() > 1 => {
+                            // a conjunction of non-linear obligations is often `unknown` where each
+                            // conjunct alone is decided: fall back to one query per obligation
+                            for nm in &names {
+                                solver.push();
+                                solver.send(&format!("(assert (not {}))\n", nm));
+                                match solver.check(nvars) {
+                                    Answer::Unsat => rep.obligations_by_solver += 1,
+                                    Answer::Sat(m) => {
+                                        if candidate.is_none() {
+                                            candidate = Some((m, "?".into(), "solver model".into()));
+                                        }
+                                    }
+                                    Answer::Unknown(_) => rep.undecided_obligations += 1,
+                                }
+                                solver.pop();
+                            }
+                        }
                         Answer::Unknown(_) => rep.undecided_obligations += names.len() as u64,
                     }
-                    solver.pop();
                 }
             }
 
